@@ -85,6 +85,32 @@ class Case:
     __slots__ = ("schema_text", "msg", "val", "real_enc", "real_dec", "real_reenc", "idx", "fname")
 
 
+def py_lookalike_names(s: G.Schema, rng: random.Random, run: common.Run) -> None:
+    """Python output only (C flattens / re-cases names differently): two enums or aliases whose names are distinct but look alike
+    - same letters in another case, or `Outer` + `Kind` next to Outer.Kind - must keep their own layouts"""
+    tops = [d for d in s.defs if isinstance(d, (G.EnumDef, G.AliasDef))]
+    names = {getattr(d, "name", None) for d in s.defs}
+    if len(tops) >= 2:
+        a, b = rng.sample(tops, 2)
+        new = a.name.upper() if rng.random() < 0.6 else a.name[:1] + a.name[1:].lower()
+        if new not in names and new != a.name:
+            b.name = new
+            names.add(new)
+            run.count("py-lookalike:case-variant")
+    for m in s.messages():
+        if m.parent is None:
+            inner = [x for x in m.nested if isinstance(x, G.EnumDef)]
+            free = [d for d in tops if d.name[:1] != d.name[:1].lower() and not d.name.isupper() and d.name not in (m.name,)]
+            if inner and free and rng.random() < 0.5:
+                d = rng.choice(free)
+                new = m.name + inner[0].name
+                if new not in names:
+                    d.name = new
+                    names.add(new)
+                    run.count("py-lookalike:flat-variant")
+                    break
+
+
 def run_python_cases(run: common.Run, rng: random.Random, n_schemas: int, n_values: int, opts: G.GenOpts,
                      want_decode: bool) -> List[Case]:
     """generate schemas/values, execute the real generated Python; returns the cases"""
@@ -93,6 +119,8 @@ def run_python_cases(run: common.Run, rng: random.Random, n_schemas: int, n_valu
         for k in range(n_schemas):
             g = G.SchemaGen(rng, opts)
             s = g.schema()
+            if rng.random() < 0.3:
+                py_lookalike_names(s, rng, run)
             text = G.schema_text(s, rng)
             path = sc.write(f"s{k}.bitproto", text)
             try:
@@ -521,23 +549,29 @@ def _check_c05(run, drv, rng, n_chains, n_values, opts) -> None:
                 chain = [m_new]
                 for mp in maps:
                     chain.append(mp[id(chain[-1])])
-                for _ in range(n_values):
-                    v = G.rand_msg_value(rng, m_new)
-                    try:
-                        b = bytes(R.py_build(mods[0], m_new, v).encode())
-                    except Exception as e:
-                        run.violation({"kind": "impl-vs-spec", "input": {"files": {"new.bitproto": texts[0]}},
-                                       "observed_impl": f"encode raised {type(e).__name__}"})
-                        continue
-                    for j in range(1, len(chain)):
-                        m_old = chain[j]
+                # every version sends, every older version receives, senders alternating: one receiver class (in one process)
+                # sees buffers of several newer versions in turn, nothing may be carried from one decode to the next
+                for rnd in range(n_values):
+                    for i in range(len(chain) - 1):
+                        if i > 0 and rnd % 2:
+                            continue
+                        m_snd = chain[i]
+                        v = G.rand_msg_value(rng, m_snd)
                         try:
-                            o = getattr(mods[j], G.py_name(m_old))()
-                            o.decode(bytearray(b))
-                            got = ("ok", R.py_read(m_old, o))
+                            b = bytes(R.py_build(mods[i], m_snd, v).encode())
                         except Exception as e:
-                            got = ("exc", type(e).__name__)
-                        jobs.append((texts[0], texts[j], m_old, m_new, v, b.hex(), got, j))
+                            run.violation({"kind": "impl-vs-spec", "input": {"files": {"new.bitproto": texts[i]}},
+                                           "observed_impl": f"encode raised {type(e).__name__}"})
+                            continue
+                        for j in range(i + 1, len(chain)):
+                            m_old = chain[j]
+                            try:
+                                o = getattr(mods[j], G.py_name(m_old))()
+                                o.decode(bytearray(b))
+                                got = ("ok", R.py_read(m_old, o))
+                            except Exception as e:
+                                got = ("exc", type(e).__name__)
+                            jobs.append((texts[i], texts[j], m_old, m_snd, v, b.hex(), got, j - i))
             for md in mods:
                 R.unload(md)
     reqs = []
